@@ -92,7 +92,18 @@ func marshal(val cty.Value, ty cty.Type, path cty.Path, enc *msgpack.Encoder) er
 				} else if fv, acc := bf.Float64(); acc == big.Exact && !bf.IsInt() {
 					err = enc.EncodeFloat64(fv)
 				} else {
-					err = enc.EncodeString(bf.Text('f', -1))
+					text := bf.Text('f', -1)
+					if bf.IsInt() {
+						// Whole numbers compare exactly, but the shortest text
+						// that identifies a number at its own precision can
+						// denote another integer once Unmarshal parses it back
+						// at its own precision (e.g. the float64 1e23). In that
+						// case write every digit.
+						if back, perr := cty.ParseNumberVal(text); perr != nil || back.AsBigFloat().Cmp(bf) != 0 {
+							text = bf.Text('f', 0)
+						}
+					}
+					err = enc.EncodeString(text)
 				}
 			}
 			if err != nil {
